@@ -536,7 +536,9 @@ fn header_value(r: &mut Rng, field: &str, class: usize) -> Value {
         "x5t" | "x5t_s256" => &["dGh1bWJwcmludA", "dGh1bWJwcmludA==", "DGH1BWJWCMLUDA", "-_-_",
                                 "2jmj7l5rSw0yVb_vlWAYkK_YBwk", "47DEQpj8HBSa-_TImW-5JCeuQeRkm5NMpJWZG3hSuFU",
                                 "2jmj7l5rSw0yVb_vlWAYkK_YBwk=", "47DEQpj8HBSa-_TImW-5JCeuQeRkm5NMpJWZG3hSuFU="],
-        _ => &["exp", "b64", "http://example.invalid/UNDEFINED", "EXP"],
+        // crit entries: extension names, claim names, and the names of the registered header parameters themselves
+        // (a producer should not list those, but what the issuer was configured with is what must come back)
+        _ => &["exp", "b64", "http://example.invalid/UNDEFINED", "EXP", "alg", "typ", "kid", "crit", "x5t#S256", "x5t_s256", "cty", "jwk", "x5c", "jku", "x5u", "x5t"],
     };
     // certificate chain entries are standard base64 of DER: a SEQUENCE (0x30 0x82 len len ...), "MII..." in text
     let der_like = || {
@@ -557,7 +559,7 @@ fn header_value(r: &mut Rng, field: &str, class: usize) -> Value {
     if field == "x5c" || field == "crit" {
         // lists are sequences: order and repetitions are part of the value (a certificate chain may name the
         // same certificate twice, next to each other or not)
-        let t = format!("{}-2", field);
+        let t = if class >= 5 && field == "crit" { realistic[r.below(realistic.len())].to_string() } else { format!("{}-2", field) };
         match r.below(7) {
             0 => json!([]),
             1 => json!([s]),
